@@ -204,7 +204,7 @@ PROPS["C18"] = {
     "tasks": lambda tier: VP(FRAC + "#rational-arithmetic", 6) + [V(FVAL + "#amount")] + VP(FRAC + ".__init__", 5) + VP(FSC + "#like-a-scalar", 7)
     + [("bounded_native", {"probe": "c18_bounded", "props": ["C18"], "bound": "numbers -50..50 in steps of 0.25 with fractions a/d, d in {2,3,4,8,16}; CreateFromFloat on k/64 for |k| <= 640 and on decimals with 3 digits in (-10, 10) (8971 evaluations)", "what": "str -> CreateFromString round trip; CreateFromFloat preserves the amount"})],
     "level": "proof",
-    "level_text": "Proved (fractions.Fraction assumed exact, A11): Fraction with symbolic integer numerators/denominators - +, -, *, /, unary -, abs, inv, copy, float, ==, !=, <, <=, >, >= between Fractions and with integers agree with exact rational arithmetic; == with None/str/tuple is False and never raises. Fraction.__init__ on real numbers: the scaling loop is verified with the loop invariant 'a/b constant, b only grows, nothing changes unless the loop is entered' (init / preservation / exit obligations), giving |stored value - a/b| <= SMALL/|b| and exactness for integers. FractionValue: float() = number + numerator/denominator; <, <=, >, >= are the order of those amounts; == is equality of number and fraction; copy is an equal, independent copy. FractionScalar: GetValue(unit) has float(result) within SMALL of conv(float(value)) for scale-only conversions (the affine case is a recorded known finding); GetValue() returns the stored value; <, <=, >, >= in one unit are the order of the amounts and raise TypeError across quantity types (different units: by composition of the two contracts, not re-proved); CheckValidity behaves exactly as Quantity.CheckValue(float(value)) (same cases, same exception attributes); receivers are never modified. BOUNDED (not proved, reported apart): str/CreateFromString round trip and CreateFromFloat by exhaustive native enumeration inside the stated grid - regular expressions, locale and str(float) digit counting have no usable theory in the installed solvers.",
+    "level_text": "Proved (fractions.Fraction assumed exact, A11): Fraction with symbolic integer numerators/denominators - +, -, *, /, unary -, abs, inv, copy, float, ==, !=, <, <=, >, >= between Fractions and with integers agree with exact rational arithmetic; == with None/str/tuple is False and never raises. Fraction.__init__ on real numbers: the scaling loop is verified with the loop invariant 'a/b constant, b only grows, nothing changes unless the loop is entered' (init / preservation / exit obligations), giving |stored value - a/b| <= SMALL/|b| and exactness for integers. FractionValue: float() = number + numerator/denominator; <, <=, >, >= are the order of those amounts; == is equality of number and fraction; copy is an equal, independent copy. FractionScalar: GetValue(unit) has float(result) within SMALL of conv(float(value)) for every conversion of the form x -> r*x + offset, r > 0 (scale-only and offset units; the offset case was a defect, repaired by dfb056b); GetValue() returns the stored value; <, <=, >, >= in one unit are the order of the amounts and raise TypeError across quantity types (different units: by composition of the two contracts, not re-proved); CheckValidity behaves exactly as Quantity.CheckValue(float(value)) (same cases, same exception attributes); receivers are never modified. BOUNDED (not proved, reported apart): str/CreateFromString round trip and CreateFromFloat by exhaustive native enumeration inside the stated grid - regular expressions, locale and str(float) digit counting have no usable theory in the installed solvers.",
     "level_note": "formatting/parsing and CreateFromFloat are a bounded stand-in only (grid stated in the evidence), never counted as proved; Fraction ** and % not under contract; floats are reals; partial correctness (termination of the scaling loop not proved, A14)",
     "trusted": STD_TRUSTED + ["fractions.Fraction is an exact rational (A11), modelled in pyvc/rational.py"],
 }
